@@ -163,7 +163,8 @@ def roles_ok(version, chars, trace=None, trav=False):
     ec = dict(zip(ROLES, chars))
     F, C, R, E, S = chars[:5]
     Tn = chars[5] if len(chars) == 6 else ''
-    m = Message('ADT_A01', version=version, encoding_chars=dict(ec))
+    given = dict(ec)
+    m = Message('ADT_A01', version=version, encoding_chars=given)
     m.msh.msh_7 = '2020'
     m.msh.msh_9 = 'ADT' + C + 'A01' + C + 'ADT_A01'
     m.msh.msh_10 = '1'
@@ -186,6 +187,7 @@ def roles_ok(version, chars, trace=None, trav=False):
     checks = [
         ('to_er7', got == want),
         ('encoding_chars', m.encoding_chars == full),
+        ('argument untouched', given == ec),
         ('to_mllp', m.to_mllp() == '\x0b' + want + '\r\x1c\r'),
         ('descendants', all(d.encoding_chars == full for d in _descendants(m))),
     ]
@@ -232,10 +234,17 @@ def _ob_trunc_below27(vi: int, p: int) -> bool:
         # below 2.7 a supplied truncation character is never emitted
         reset_defaults()
         chars = [K[x] for x in PERMS6[p]]
-        m = Message('ADT_A01', version=VERS[vi], encoding_chars=dict(zip(ROLES, chars)))
+        given = dict(zip(ROLES, chars))
+        m = Message('ADT_A01', version=VERS[vi], encoding_chars=given)
         m.msh.msh_7 = '2020'
         head = 'MSH' + ''.join(chars[:5]) + chars[0]
-        return m.to_er7().startswith(head) and 'TRUNCATION' not in m.encoding_chars
+        ok = m.to_er7().startswith(head) and 'TRUNCATION' not in m.encoding_chars
+        # the caller's dictionary is an argument, not something to edit: it still holds what was supplied, and a 2.7 message
+        # created with the very same object emits the truncation character
+        ok = ok and given == dict(zip(ROLES, chars))
+        m27 = Message('ADT_A01', version='2.7', encoding_chars=given)
+        return ok and m27.to_er7().startswith('MSH' + ''.join(chars[:5]) + chars[5] + chars[0]) and \
+            m27.encoding_chars.get('TRUNCATION') == chars[5]
 
 
 def explain(call):
